@@ -111,8 +111,8 @@ func (isn *InlineSchemaNamer) Name(key string, schema *spec.Schema, aschema *Ana
 func uniqifyName(definitions spec.Definitions, name string) (string, bool) {
 	isOAIGen := false
 	if name == "" {
+		// nothing left of the original name: this is a placeholder name, not the resolution of a conflict
 		name = "oaiGen"
-		isOAIGen = true
 	}
 
 	if len(definitions) == 0 {
